@@ -32,8 +32,9 @@ example : Cursor.beNat (OutCursor.beBytes 2 0xabcd) = 0xabcd := by decide
     packet reproduces the bytes.  Proved by induction over the stack from the per-class `*_reparse` theorems and the
     generated next-protocol tables (`Wire/L2/ThChain*.lean`).  The other families have the per-class halves
     (`ip4_reparse`, `ipv6_reparse`, `tcp_reparse`, `udp_reparse`, `icmp_reparse_*`, `icmp6_reparse_*`, `ah_reparse`,
-    `esp_reparse`, the App and Wifi `*_reparse` theorems); lifting them through the IP / IPv6 dispatch is correspondence +
-    oracle so far. -/
+    `esp_reparse`, the App and Wifi `*_reparse` theorems); `whole_packet_c03` below lifts them through the IP / IPv6
+    dispatch for the Ip, Ip6, Transport and Icmp families (App and Wifi: correspondence + oracle so far).  This theorem
+    additionally has the second-serialization clause, which the all-family theorem does not state. -/
 theorem l2_whole_packet_c03 (cls : String) (b : Bytes) (os : List Wire.AnyObj)
     (hparse : Wire.parseChain (b.length + 2) cls b = .ok os) (hall : ∀ o ∈ os, Wire.L2.L2Ser o) :
     ∃ out, Wire.serializeObjs os = .ok out ∧
